@@ -2,7 +2,7 @@
 EXTENDS E2fs, Json
 CONSTANT MaxDev
 VARIABLE t
-Init == t \in {x \in Dims : Dev(x, Base) <= MaxDev}
+Init == t \in {x \in Dims : Dev(x, Base) <= MaxDev \/ Always(x)}
 Next == UNCHANGED t
 Spec == Init /\ [][Next]_t
 Emit == PrintT(<<"BEH", ToJson(t)>>)
